@@ -168,6 +168,23 @@ func toIfaces(ps []string) []interface{} {
 
 // ================================================================ C08
 
+
+// sepScenario builds a Map and a sub-key TEXT that parses validly but DIFFERENTLY under the two field
+// separators "|" and ":" and selects a different record under each ("at|12:30": at == "12:30" under "|",
+// "at|12" == "30" under ":"). Used twice in a row, once per separator: nothing remembered from the first
+// call (e.g. a parse cache keyed by the text alone) may leak into the second.
+func (r *Rng) sepScenario() (map[string]interface{}, string, string) {
+	k := r.pick([]string{"at", "k", "b", "id"})
+	a, b := r.pick([]string{"12", "x", "7"}), r.pick([]string{"30", "y", "w"})
+	who := r.pick([]string{"who", "c", "items"})
+	m := map[string]interface{}{"rec": []interface{}{
+		map[string]interface{}{who: "ann", k: a + ":" + b},
+		map[string]interface{}{who: "bob", k + "|" + a: b},
+		map[string]interface{}{who: "cy", k: b},
+	}}
+	return m, k + "|" + a + ":" + b, who
+}
+
 func runC08(cfg runCfg) error {
 	r := newRng(cfg.seed)
 	run := newRun("C08", cfg.out, cfg.seed, cfg.shards, kvHeader, "case",
@@ -207,6 +224,30 @@ func runC08(cfg runCfg) error {
 			}
 		}
 		c08One(run, c)
+		if r.chance(0.03) {
+			sm, stext, _ := r.sepScenario()
+			for _, sp := range []string{"|", ":", "|"} {
+				c08One(run, kvCase{Op: "ValuesForPath", Map: sm, Path: "rec", SubKeys: []string{stext}, Sep: sp})
+				c08One(run, kvCase{Op: "ValuesForKey", Map: sm, Key: "rec", SubKeys: []string{stext}, Sep: sp})
+			}
+		}
+		// the same sub-key TEXT read under another field separator right afterwards (texts that contain both
+		// separators parse differently; nothing remembered from the previous call may leak into this one)
+		if len(c.SubKeys) > 0 && r.chance(0.2) {
+			c2 := c
+			c2.SubKeys = append([]string{}, c.SubKeys...)
+			if r.chance(0.5) {
+				c2.SubKeys[0] = r.pick(keyPool) + "|" + r.pick([]string{"12:30", "v:w", "a:b"})
+				c.SubKeys = c2.SubKeys
+				c08One(run, c)
+			}
+			if c.Sep == ":" {
+				c2.Sep = "|"
+			} else {
+				c2.Sep = ":"
+			}
+			c08One(run, c2)
+		}
 	}
 	return run.finish()
 }
@@ -533,6 +574,28 @@ func runC10(cfg runCfg) error {
 			c.SubKeys = r.genSubKeys(m, ":", false)
 		}
 		c10One(run, c)
+		if r.chance(0.03) {
+			sm, stext, who := r.sepScenario()
+			for _, sp := range []string{"|", ":", "|"} {
+				c10One(run, kvCase{Op: "UpdateValuesForPath", Map: sm, Path: "rec." + who, NewVal: who + sp + "dave", SubKeys: []string{stext}, Sep: sp})
+			}
+		}
+		// the same sub-key text under two field separators in a row (see runC08)
+		if r.chance(0.08) {
+			k2 := r.pick(keyPool)
+			c.SubKeys = []string{k2 + "|" + r.pick([]string{"12:30", "v:w", "a:b"})}
+			c.Sep = "|"
+			if nv, ok := c.NewVal.(string); ok {
+				c.NewVal = strings.ReplaceAll(nv, ":", "|")
+			}
+			c10One(run, c)
+			c3 := c
+			c3.Sep = ":"
+			if nv, ok := c3.NewVal.(string); ok {
+				c3.NewVal = strings.ReplaceAll(nv, "|", ":")
+			}
+			c10One(run, c3)
+		}
 	}
 	return run.finish()
 }
@@ -967,8 +1030,19 @@ func runC12(cfg runCfg) error {
 		c12One(run, c)
 	}
 	for i := 0; i < cfg.n; i++ {
-		g := genCfg{maxDepth: 4, maxFan: 4, nestedLists: false, emptyLists: true}
+		g := genCfg{maxDepth: 4, maxFan: 4, nestedLists: false, emptyLists: true, oddKeys: r.chance(0.15)}
 		m := r.genMap(g, 0)
+		if r.chance(0.1) {
+			// keys that differ from an existing key only by surrounding blanks
+			for _, k := range sortedKeys(m) {
+				if r.chance(0.5) {
+					m[" "+k] = "padded"
+				} else {
+					m[k+" "] = "padded"
+				}
+				break
+			}
+		}
 		np := 1 + r.Intn(4)
 		overlap := r.chance(0.4)
 		var pairs []string
@@ -986,6 +1060,9 @@ func runC12(cfg runCfg) error {
 				nw = newPool[(i+j)%len(newPool)]
 			}
 			p := old + ":" + nw
+			if r.chance(0.08) {
+				p = r.pick([]string{" " + old + ":" + nw, old + " :" + nw, old + ": " + nw, old + ":" + nw + " "})
+			}
 			if r.chance(0.1) {
 				p = r.pick([]string{old, "", ":" + nw, old + ":", old + ":*", old + ":a[0]", old + ":a:b", old + ":x*y"})
 			}
